@@ -2349,7 +2349,11 @@ void janet_ev_default_threaded_callback(JanetEVGenericMessage return_value) {
     if (return_value.fiber == NULL) {
         return;
     }
-    if (janet_fiber_can_resume(return_value.fiber)) {
+    /* janet_ev_threaded_await leaves the generation of the waiting fiber in argj. A fiber that has moved on since then
+     * (cancelled, deadline expired) is blocked on something else and must not be resumed by this completion. */
+    int is_current = !janet_checktype(return_value.argj, JANET_NUMBER) ||
+                     (uint32_t) janet_unwrap_number(return_value.argj) == return_value.fiber->sched_id;
+    if (is_current && janet_fiber_can_resume(return_value.fiber)) {
         switch (return_value.tag) {
             default:
             case JANET_EV_TCTAG_NIL:
@@ -2391,6 +2395,7 @@ void janet_ev_threaded_await(JanetThreadedSubroutine fp, int tag, int argi, void
     arguments.argi = argi;
     arguments.argp = argp;
     arguments.fiber = janet_root_fiber();
+    arguments.argj = janet_wrap_number((double) arguments.fiber->sched_id);
     janet_gcroot(janet_wrap_fiber(arguments.fiber));
     janet_ev_threaded_call(fp, arguments, janet_ev_default_threaded_callback);
     janet_await();
